@@ -1525,3 +1525,88 @@ mut("quiet-parseipnet-netip-unmap", ["C13"], [(BU, '''	ip := net.ParseIP(host)
 	}
 	switch {
 	case ip.To4() != nil:'''), (BU, 'import (\n', 'import (\n\t"net/netip"\n')], [])
+
+# ---- rules added after the fourth batch of independently seeded changes ----
+BSR = "batch_spend_reporter.go"
+BST = "banman/store.go"
+IDX = "headerfs/index.go"
+HF = "headerfs/file.go"
+mut("c06-cache-put-under-response-hash", ["C06"], [(Q, "	_, err = s.BlockCache.Put(*inv, &CacheableBlock{Block: foundBlock})", "	respInv := wire.NewInvVect(invType, foundBlock.Hash())\n	_, err = s.BlockCache.Put(*respInv, &CacheableBlock{Block: foundBlock})")], ["C06.V2"])
+mut("c11-ids-from-registry-size", ["C11"], [(MG, "		id:         atomic.AddUint64(&m.subscriberCounter, 1),\n", ""), (MG, '''	log.Infof("Registering block subscription: id=%d", sub.id)''', '''	sub.id = uint64(len(m.subscribers)) + 1
+	log.Infof("Registering block subscription: id=%d", sub.id)''')], ["C11.V1"])
+mut("c10-spend-report-shared-per-tx", ["C10"], [(BSR, '''		// Check each input to see if this transaction spends one of our
+		// watched outpoints.
+		for i, ti := range tx.TxIn {''', '''		spend := &SpendReport{
+			SpendingTx:       tx,
+			SpendingTxHeight: height,
+		}
+		for i, ti := range tx.TxIn {'''), (BSR, '''			spend := &SpendReport{
+				SpendingTx:         tx,
+				SpendingInputIndex: uint32(i),
+				SpendingTxHeight:   height,
+			}
+
+			spends[outpoint] = spend''', '''			spend.SpendingInputIndex = uint32(i)
+			spends[outpoint] = spend''')], ["C10.V1"])
+mut("c10-initial-output-unchecked-index", ["C10"], [(BSR, '''			if op.Index >= uint32(len(txOuts)) {''', '''			if op.Index > uint32(len(txOuts)) {''')], ["C10.V1"])
+mut("c10-block-index-of-request", ["C10"], [(BSR, '''		for _, req := range txidReqs {
+			op := req.Input.OutPoint''', '''		for i, req := range txidReqs {
+			op := req.Input.OutPoint'''), (BSR, "	for i, tx := range block.Transactions {\n		// If our reverse index has been cleared, we are done.", "	for _, tx := range block.Transactions {\n		// If our reverse index has been cleared, we are done.")], ["C10.V1"])
+mut("c02-known-work-list-only", ["C02", "C04"], [(BM, '''			knownEl := b.headerList.Back()
+			var knownHead *wire.BlockHeader
+			for j := uint32(prevNode.Height); j > backHeight; j-- {
+				if knownEl != nil {''', '''			knownEl := b.headerList.Back()
+			var knownHead *wire.BlockHeader
+			for j := uint32(prevNode.Height); j > backHeight && knownEl != nil; j-- {
+				if knownEl != nil {''')], ["C02.V3", "C04.V1"])
+mut("c13-ban-skips-existing-record", ["C13", "C06", "C03"], [(BST, '''		k := ipNetBuf.Bytes()
+
+		return addBannedIPNet(banIndex, reasonIndex, k, reason, duration)''', '''		k := ipNetBuf.Bytes()
+
+		if banIndex.Get(k) != nil {
+			return nil
+		}
+
+		return addBannedIPNet(banIndex, reasonIndex, k, reason, duration)''')], ["C13.O3", "C06.O2", "C03.O3"])
+mut("c15-wrapped-reject-error", ["C15"], [(Q, "		return firstRejectWithCode(mostRejectedCode)\n", '		return fmt.Errorf("rejected by all peers: %w", firstRejectWithCode(mostRejectedCode))\n')], ["C15.T2"])
+mut("quiet-c15-error-via-local", ["C15"], [(Q, "		return firstRejectWithCode(mostRejectedCode)\n", "		rejectErr := firstRejectWithCode(mostRejectedCode)\n		return rejectErr\n")], [])
+mut("c09-input-skipped-on-script-error", ["C09"], [(RS, '''	for _, in := range tx.MsgTx().TxIn {
+		for _, input := range ro.watchInputs {''', '''	for _, in := range tx.MsgTx().TxIn {
+		if len(in.SignatureScript) == 0 && len(in.Witness) == 0 {
+			continue
+		}
+		for _, input := range ro.watchInputs {''')], ["C09.V2"])
+mut("c07-drop-empty-sub-bucket", ["C07"], [(IDX, '''			if err := subBucket.Delete(hashBytes); err != nil {
+				return err
+			}
+		}
+''', '''			if err := subBucket.Delete(hashBytes); err != nil {
+				return err
+			}
+		}
+		if k, _ := subBucket.ReadCursor().First(); k == nil {
+			if err := rootBucket.DeleteNestedBucket([]byte(prefix)); err != nil {
+				return err
+			}
+		}
+''')], ["C07.W2"])
+mut("c05-target-by-position", ["C05"], [(Q, "	if response.BlockHash == q.targetHash {\n		q.targetFilter = filter", "	if i == 1 {\n		q.targetFilter = filter")], ["C05.V3"])
+mut("c03-filter-query-ends-early", ["C03"], [(BM, '''				filterResponses[sp.Addr()] = gcsFilter
+''', '''				filterResponses[sp.Addr()] = gcsFilter
+				if len(filterResponses) >= 2 {
+					close(quit)
+				}
+''')], ["C03.O4"])
+mut("c14-overlap-end-not-verified-when-extending", ["C14"], [(HI, '''		if overlapEnd > overlapStart {
+			if err = h.verifyHeadersAtTargetHeight(''', '''		if overlapEnd > overlapStart && overlapEnd >= importEndHeight {
+			if err = h.verifyHeadersAtTargetHeight(''')], ["C14.G3"])
+mut("c18-shared-read-buffer", ["C18"], [(HF, "	rawHeader := make([]byte, headerSize)\n	if _, err := h.file.ReadAt(rawHeader, int64(seekDist)); err != nil {", "	rawHeader := sharedReadBuf[:headerSize]\n	if _, err := h.file.ReadAt(rawHeader, int64(seekDist)); err != nil {")], ["C18.R4"], new_files=[("headerfs/zz_buf.go", "package headerfs\n\nvar sharedReadBuf = make([]byte, 80)\n")])
+mut("c01-prev-hash-carried-over", ["C01"], [(BM, '''		prevHash := prevNode.Header.BlockHash()
+		if prevHash.IsEqual(&blockHeader.PrevBlock) {''', '''		prevHash := prevNode.Header.BlockHash()
+		if i > 0 {
+			prevHash = msg.Headers[i-1].BlockHash()
+		}
+		if prevHash.IsEqual(&blockHeader.PrevBlock) {''')], ["C01.V4"])
+mut("c02-known-work-off-by-one", ["C02"], [(BM, "			for j := uint32(prevNode.Height); j > backHeight; j-- {", "			for j := uint32(prevNode.Height); j >= backHeight; j-- {")], ["C02.V3"])
+mut("quiet-known-work-counting-up", ["C02", "C04"], [(BM, "			for j := uint32(prevNode.Height); j > backHeight; j-- {", "			for j := backHeight; j < uint32(prevNode.Height); j++ {")], [])
+mut("quiet-known-work-bound-plus-one", ["C02", "C04"], [(BM, "			for j := uint32(prevNode.Height); j > backHeight; j-- {", "			for j := uint32(prevNode.Height); j >= backHeight+1; j-- {")], [])
